@@ -25,6 +25,7 @@ def check(run):
     run.attempt(exc, run, p, fc)
     run.attempt(perm, run, p, fc)
     run.attempt(oracle, run, p, fc)
+    run.attempt(sameenc, run, p, fc)
     run.attempt(rawremove, run, p, fc)
     run.attempt(stateless, run, p, fc)
     from .common import nocache_rule
@@ -492,3 +493,36 @@ def oracle(run, p, fc):
                                len(bad), bad[0][0], 'passes' if bad[0][1] is True else ('fails' if bad[0][1] is False else bad[0][1]),
                                'pass' if bad[0][2] else 'fail', actual, expected)), fn=f)
     run.floor('C04-ORACLE', n, 2100)
+
+
+def sameenc(run, p, fc, rid='C04-SAMEENC'):
+    """the two files of a pair are decoded alike"""
+    from ..pyeval import Interp, Obj, Unsupported, Raised, FakeFS, pure_sys
+    run.rule(rid, 'the two files of a pair are decoded alike: check_file, evaluated on an in-memory file system for pairs whose names '
+                  'carry different extensions (a scratch name against summary.pdf, out.pdf against out.txt, .txt against .txt) with '
+                  'and without an explicit encoding, opens the actual file with the encoding it opens the reference with - bytes '
+                  'decoded two ways differ in every non-ASCII character although the files are identical')
+    n = 0
+    text = 'alpha\nbeta\n'
+    for actual, refn in (('/w/tmpa9b8c7', '/ref/summary.pdf'), ('/w/out.pdf', '/ref/out.txt'), ('/w/out.txt', '/ref/out.txt'), ('/w/report.PDF', '/ref/report.md'), ('/w/x', '/ref/x')):
+        for enc in (None, 'utf-8', 'latin-1'):
+            fs = FakeFS({actual: text, refn: text})
+            I = Interp(p)
+            I.safe_modules = {'re'}
+            I.extra_names.update({'open': fs.open, 'os': fs.os(), 'sys': pure_sys()})
+            o = Obj(fc)
+            o.attrs.update(print_fn=None, verbose=False, tmp_dir='/tmpdir')
+            kw = {} if enc is None else {'encoding': enc}
+            try:
+                I.call(fc.methods['check_file'], [actual, refn], kw, selfobj=o)
+            except Unsupported as e:
+                raise AnalysisError('check_file is not evaluable: %s' % e)
+            except Raised as e:
+                pass
+            ea, er = fs.encodings.get(actual, []), fs.encodings.get(refn, [])
+            same = bool(ea) and bool(er) and {str(x).lower().replace('_', '-') for x in ea} == {str(x).lower().replace('_', '-') for x in er} if actual != refn else True
+            n += 1
+            run.ob(rid, '%s~%s:encoding=%s' % (actual, refn, enc), same,
+                   'check_file(%s, %s%s) opens the actual file with encoding %s and the reference with %s' % (
+                       actual, refn, '' if enc is None else ', encoding=%r' % enc, ea or 'never', er or 'never'), fn=fc.methods['check_file'])
+    run.floor(rid, n, 12)
